@@ -479,6 +479,13 @@ func fetchDocWithIDAndItsSubDocs(node planNode, docID string) (immutable.Option[
 	hasValue, err := node.Next()
 
 	if err != nil || !hasValue {
+		if multiScan, ok := node.(*multiScanNode); ok {
+			// A multiScanNode runs the shared scan once per round of its readers. A lookup that finds
+			// nothing yields no row, so the other readers never take their turn of this round: start a
+			// new round, else the next lookup would be answered with this lookup's stale result.
+			multiScan.initCount = 0
+			multiScan.nextCount = 0
+		}
 		return immutable.None[core.Doc](), err
 	}
 
